@@ -63,14 +63,14 @@ func runC19(c *Ctx) {
 			w := reachesWithout(e.Call, isReturnOrExit, func(in ssa.Instruction) bool { return in.Block() == hdr })
 			okCont = w == nil
 		}
-		r.Check("C19.clean-complete", "clean/sweep continues after a removal in "+short(fn.Name()), m.Pos(e.Call.Pos()), okCont,
+		r.Check("C19.clean-complete", "clean/sweep continues after a removal in "+short(refName(fn)), m.Pos(e.Call.Pos()), okCont,
 			"after os.Remove (whatever its result) control must return to the entries loop; an early return leaves later counter files and reports behind")
 		// and the function containing the remove loop must itself be invoked for every directory: if it is a helper, its error result must not stop the caller's loop
 		if fn != clean {
 			for _, cs := range m.callersOf(fn) {
 				h2 := innermostLoopHeader(cs.Block())
 				ok2 := h2 != nil && reachesWithout(cs, isReturnOrExit, func(in ssa.Instruction) bool { return in.Block() == h2 }) == nil
-				r.Check("C19.clean-complete", "clean/helper "+short(fn.Name())+" called for every directory", m.Pos(cs.Pos()), ok2, "the per-directory helper's outcome must not end the sweep over directories")
+				r.Check("C19.clean-complete", "clean/helper "+short(refName(fn))+" called for every directory", m.Pos(cs.Pos()), ok2, "the per-directory helper's outcome must not end the sweep over directories")
 			}
 		}
 	}
